@@ -17,9 +17,17 @@ def cli():
 
 def _ast_to_dict(doc):
     """Convert AST Document to dictionary for JSON/YAML export."""
-    from octave_mcp.core.ast_nodes import Assignment, Block, InlineMap, ListValue
+    from octave_mcp.core.ast_nodes import Assignment, Block, InlineMap, ListValue, LiteralZoneValue
 
     def convert_value(value):
+        if isinstance(value, LiteralZoneValue):
+            # Issue #235: same structured export as the MCP octave_eject tool (content verbatim)
+            return {
+                "__literal_zone__": True,
+                "content": value.content,
+                "info_tag": value.info_tag,
+                "fence_marker": value.fence_marker,
+            }
         if isinstance(value, ListValue):
             return [convert_value(item) for item in value.items]
         elif isinstance(value, InlineMap):
